@@ -68,6 +68,15 @@ impl<'i> Handle<'i> {
 		Handle(Source::Reader(GuardedCaptureReader::new(Box::new(r))))
 	}
 
+	/// Takes a copy of the latest I/O error that consumers of
+	/// [`borrow_mut`](Handle::borrow_mut) received from an input reader, if any.
+	pub(crate) fn take_source_error(&mut self) -> Option<io::Error> {
+		match &mut self.0 {
+			Source::Slice(_) => None,
+			Source::Reader(r) => r.0.take_source_error(),
+		}
+	}
+
 	/// Borrows a temporary reference to the input.
 	///
 	/// For slice inputs, this provides access to the original slice.
@@ -264,6 +273,7 @@ where
 	prefix: Cursor<Vec<u8>>,
 	source: R,
 	source_eof: bool,
+	source_error: Option<(io::ErrorKind, String)>,
 }
 
 impl<R> CaptureReader<R>
@@ -276,6 +286,7 @@ where
 			prefix: Cursor::new(vec![]),
 			source,
 			source_eof: false,
+			source_error: None,
 		}
 	}
 
@@ -335,6 +346,12 @@ where
 		self.source_eof
 	}
 
+	/// Takes a copy of the latest error that `read` saw from the source, if any.
+	fn take_source_error(&mut self) -> Option<io::Error> {
+		let (kind, message) = self.source_error.take()?;
+		Some(io::Error::new(kind, message))
+	}
+
 	/// Consumes the reader, returning any captured prefix as well as the
 	/// source.
 	fn into_inner(self) -> (Cursor<Vec<u8>>, R) {
@@ -368,7 +385,16 @@ where
 		// of `buf` in any way (unless, of course, the source is broken and lies
 		// about how many bytes it read).
 		let buf = &mut buf[prefix_size..];
-		let source_size = self.source.read(buf)?;
+		//
+		// Consumers that parse the input may dress up a source error as one of
+		// their own, so we keep a record of it for `take_source_error`.
+		let source_size = match self.source.read(buf) {
+			Ok(size) => size,
+			Err(err) => {
+				self.source_error = Some((err.kind(), err.to_string()));
+				return Err(err);
+			}
+		};
 		self.prefix.write_all(&buf[..source_size])?;
 
 		// Finally, mark whether the source is at EOF (keeping in mind that it
